@@ -197,7 +197,7 @@ def headerModelled (h : Header) : Bool := keysSafe h.requestIds
 def subTxTrivial (p : PbTx) : Bool :=
   match p.subTransactions with
   | none => true
-  | some raw => raw = [] || raw = jsonNull || raw = [91, 93]
+  | some raw => raw = [] || raw = jsonNull || (parseSubTx raw).isSome
 
 def showOutcome {α : Type} (f : α → String) : Outcome α → String
   | .ok a => "ok " ++ f a
@@ -278,19 +278,19 @@ def step (_ : Unit) (line : String) : Unit × String :=
            (match decTx bs with
             | none => "err"
             | some p =>
-              if op == "tu" && !subTxTrivial p then "unmodelled"
+              if !subTxTrivial p then "unmodelled"
               else showOutcome (fun t => sTx t ++ " " ++ toHex (txGenHash t)) (pbToTx p))
          else if op == "su" || op == "suc" then
            (match decTxSlice bs with
             | none => "err"
             | some ps =>
-              if op == "su" && !ps.all subTxTrivial then "unmodelled"
+              if !ps.all subTxTrivial then "unmodelled"
               else showOutcome sTxs (pbToTxs ps))
          else if op == "bu" || op == "buc" then
            (match decBlock bs with
             | none => "err"
             | some p =>
-              if op == "bu" && !p.transactions.all subTxTrivial then "unmodelled"
+              if !p.transactions.all subTxTrivial then "unmodelled"
               else match unmarshalBlock bs with
                 | .ok b =>
                   (match b.header with
